@@ -28,7 +28,7 @@ from ..cfg import explore, canon_fact
 from ..model import AnalysisError
 from ..mutate import mutate, remove_stmts, replace_expr, replace_stmt, parse_stmt, parse_expr
 from ..rules import tainted_names, mentions, writers_of
-from ..x_secflow import Reach, same, own_nodes, concat_canon, positional_call, scalar_const
+from ..x_secflow import Reach, same, own_nodes, concat_canon, positional_call, scalar_const, unwalrus
 
 TECHNIQUE = "typestate exploration on the CFGs of StaticFileHandler.get and validate_absolute_path (validated / contained / separator-terminated), derived filesystem-touching call set through the MRO, provenance of filesystem arguments, who-may-write"
 EXPLANATION = (
@@ -134,6 +134,14 @@ def check_get(ck, get, touching, validator="validate_absolute_path", joiner="get
             # the validator's result is only one of several values stored (conditional expression, `or` fallback ...)
             aliases |= q.assigned_paths(n.ast)
             loose.append(n)
+    # the validator's result bound by an assignment expression inside a test: `if (p := self.validate...(..)) is None:`
+    wal = {}
+    for n in cfg.stmt_nodes(lambda n: n.kind == "test"):
+        for x in q.walk_local(n.ast):
+            if isinstance(x, ast.NamedExpr) and self_call_name(x.value) == validator and isinstance(x.target, ast.Name):
+                aliases.add(x.target.id)
+                vnodes.append(n)
+                wal[n.id] = x
     for n in loose:
         ck.ob("C26.get-validated", get, n.ast, False, "the value stored is the validator's result on every path, not an expression that can bypass it")
     ck.floor("C26.get-validated", len(vnodes) + len(loose), 1, "assignments from validate_absolute_path in get")
@@ -152,6 +160,8 @@ def check_get(ck, get, touching, validator="validate_absolute_path", joiner="get
     # state: (status of the validator result, does the attribute currently hold it)
     def transfer(n, val):
         status, held = val
+        if n.kind == "test" and n.id in wal:
+            return ("maybe", False)
         if n.kind in ("stmt", "for", "with") and n.ast is not None and isinstance(n.ast, ast.stmt):
             ap = q.assigned_paths(n.ast)
             if n.id in vids:
@@ -167,7 +177,7 @@ def check_get(ck, get, touching, validator="validate_absolute_path", joiner="get
 
     def test_expr(n):
         """The test, looking through a named boolean (``missing = self.absolute_path is None``)."""
-        e = n.ast
+        e = unwalrus(n.ast)
         if isinstance(e, ast.Name) and e.id not in aliases:
             d = rd.unique(n, e.id)
             if d is not None and d.kind == "assign" and isinstance(d.value, (ast.Compare, ast.UnaryOp, ast.BoolOp)) and not any(isinstance(x, ast.Call) for x in ast.walk(d.value)):
@@ -214,7 +224,7 @@ def check_get(ck, get, touching, validator="validate_absolute_path", joiner="get
     ck.floor("C26.get-validated", governed, 4, "filesystem-touching calls in get")
     # the validator's arguments
     for n in vnodes:
-        c = positional_call(n.ast.value, [p_ for p_ in ck.repo.func(W, SF + "." + validator).params() if p_ not in ("self", "cls")])
+        c = positional_call(wal[n.id].value if n.id in wal else n.ast.value, [p_ for p_ in ck.repo.func(W, SF + "." + validator).params() if p_ not in ("self", "cls")])
         ck.need(len(c.args) == 2 and not c.keywords, "get: %s called with unexpected arguments" % validator)
         root = rd.expand(c.args[0], n)
         if q.dotted(root) != "self.root" and not isinstance(root, ast.Constant) and not (q.dotted(root) or "").startswith("self."):
@@ -730,7 +740,7 @@ def check_writers(ck, attr, aliases=()):
     ck.floor("C26.single-writer", len(ws), 1, "writers of " + attr)
     for fi, st in ws:
         v = getattr(st, "value", None)
-        ok = self_call_name(v) == "validate_absolute_path" or (fi.qualname == SF + ".get" and v is not None and q.dotted(v) in aliases)
+        ok = self_call_name(v) == "validate_absolute_path" or (fi.qualname == SF + ".get" and v is not None and q.dotted(v) in aliases) or (isinstance(v, ast.Constant) and v.value is None)
         ck.ob("C26.single-writer", fi, st, ok, "%s is only ever assigned the result of validate_absolute_path(...)" % attr)
     ws = writers_of(ck.repo, W, SF, "root")
     ck.floor("C26.single-writer", len(ws), 1, "writers of self.root")
